@@ -210,10 +210,12 @@ class World:
         if kind == "thumb": return None if v == self.thumb else "wrong thumbprint"
         if kind == "maybekid": return None if v in (None, self.thumb) else f"kid {v!r}"
         if kind == "dict":
+            # the default export of the (private) shared key carries its private members whatever ran before it; a public export never does
+            private = True if name == "as_dict" else (False if name == "as_dict_pub" else ("k" in v or "d" in v or "p" in v))
             if self.jwk["kty"] == "oct":
-                conf = {"kty": "oct", "k": self.jwk["k"]} if "k" in v else {"kty": "oct"}
+                conf = {"kty": "oct", "k": self.jwk["k"]} if private else {"kty": "oct"}
             else:
-                conf = R.native_to_jwk(R.jwk_to_native(self.jwk, True), "d" in v or "p" in v)
+                conf = R.native_to_jwk(R.jwk_to_native(self.jwk, True), private)
             core = {k: x for k, x in v.items() if k != "kid"}
             if core != conf: return "JWK view differs from isolation"
             return None if v.get("kid", self.thumb) == self.thumb else "wrong kid in view"
